@@ -10,7 +10,7 @@
      W.roots   roots of trust of the schema (one or several); W.covers  shape -> roots of trust it matches
      W.shape   name -> shape, for every name that occurs (also names of certificates that do not exist)
      W.certs   certificate name -> [key (public key it carries), kl (key locator name | "none"),
-               sig (key that made its signature | "forged" | "digest" | "hmac" | "unknownsig"), serv (yes|nack|timeout|absent)]
+               sig (key that made its signature | "forged" | "digest" | "hmac" | "unknownsig" | "hmacpub" | "digestkl" | "wrongtype"), serv (yes|nack|timeout|absent)]
      W.pkts    packet name -> [kl, sig]
      W.epoch   number of Heal steps so far (the set of retrievable certificates changes only there)
      W.sch, W.kt, W.q   labels for the executor (which LVS text / key type materialises the world) and witnesses
@@ -292,7 +292,12 @@ Peer == Strict \cup {<<"c1", "c1">>, <<"c1", "c2">>, <<"c1", "c3">>, <<"c1", "x"
 
 \* at any link 1..d. "hmac" / "unknownsig": the element names the right certificate but its SignatureInfo says
 \* HMAC_WITH_SHA256 / an unassigned SignatureType - no public key can verify it, so it must be rejected
-LinkDevs == {"forged", "subst", "nokl", "digest", "hmac", "unknownsig"}
+\* The signature TYPE of a link is the adversary's choice as well: "hmacpub" = HMAC_WITH_SHA256 keyed with the PUBLIC
+\* key bits of the named certificate (anybody can compute it), "digestkl" = DigestSha256 with a key locator,
+\* "wrongtype" = a signature of another algorithm than the named certificate's key (ECDSA under an RSA key, ...).
+\* None of them is a signature that verifies under the certificate's public key: all must be rejected.
+\* (Interpretation: a validator call that raises ValueError instead of returning is counted as a rejection.)
+LinkDevs == {"forged", "subst", "nokl", "digest", "hmac", "unknownsig", "hmacpub", "digestkl", "wrongtype"}
 CertDevs == {"shape", "absent", "nack", "timeout"}         \* at links whose signer is a fetched certificate, 1..d-1
 Params(maxd) ==
   {[sch |-> "strict", d |-> d, dev |-> "none", i |-> 0] : d \in 1..maxd}
@@ -324,7 +329,7 @@ MCWorld(q) ==
                         ELSE IF q.dev = "forged" THEN "forged"
                         ELSE IF q.dev = "subst" THEN "kO"
                         ELSE IF q.dev = "digest" THEN "digest"
-                        ELSE IF q.dev \in {"hmac", "unknownsig"} THEN q.dev
+                        ELSE IF q.dev \in {"hmac", "unknownsig", "hmacpub", "digestkl", "wrongtype"} THEN q.dev
                         ELSE IF q.dev = "loop" THEN leafKey
                         ELSE sig0
       servOf(n) == IF n = signer /\ q.dev \in {"absent", "nack", "timeout"} THEN q.dev ELSE "yes"
